@@ -105,25 +105,25 @@ type EgressSpec struct {
 }
 
 type SysSpec struct {
-	Backend       string        `json:"backend"` // memory | sqlite
-	PullTokens    []string      `json:"pull_tokens,omitempty"`
-	AdminTokens   []string      `json:"admin_tokens,omitempty"`
-	IngressRate   *RateSpec     `json:"ingress_rate,omitempty"`
-	MaxBody       int           `json:"max_body,omitempty"`
-	MaxHeaders    int           `json:"max_headers,omitempty"`
-	MaxDepth      int           `json:"max_depth,omitempty"`
-	DropPolicy    string        `json:"drop_policy,omitempty"`
-	MaxBatch      int           `json:"max_batch,omitempty"`
-	DefaultTTL    time.Duration `json:"default_ttl,omitempty"`
-	MaxTTL        time.Duration `json:"max_ttl,omitempty"`
-	Secrets       []SecretSpec  `json:"secrets,omitempty"`
-	Egress        *EgressSpec   `json:"egress,omitempty"`
-	DefaultRetry  *RetrySpec    `json:"default_retry,omitempty"`
+	Backend        string        `json:"backend"` // memory | sqlite
+	PullTokens     []string      `json:"pull_tokens,omitempty"`
+	AdminTokens    []string      `json:"admin_tokens,omitempty"`
+	IngressRate    *RateSpec     `json:"ingress_rate,omitempty"`
+	MaxBody        int           `json:"max_body,omitempty"`
+	MaxHeaders     int           `json:"max_headers,omitempty"`
+	MaxDepth       int           `json:"max_depth,omitempty"`
+	DropPolicy     string        `json:"drop_policy,omitempty"`
+	MaxBatch       int           `json:"max_batch,omitempty"`
+	DefaultTTL     time.Duration `json:"default_ttl,omitempty"`
+	MaxTTL         time.Duration `json:"max_ttl,omitempty"`
+	Secrets        []SecretSpec  `json:"secrets,omitempty"`
+	Egress         *EgressSpec   `json:"egress,omitempty"`
+	DefaultRetry   *RetrySpec    `json:"default_retry,omitempty"`
 	DefaultTimeout time.Duration `json:"default_timeout,omitempty"`
-	Routes        []RouteSpec   `json:"routes"`
-	Delivered     time.Duration `json:"delivered,omitempty"`
-	PublishPolicy []string      `json:"publish_policy,omitempty"` // raw directive lines
-	Comment       string        `json:"comment,omitempty"`        // makes two texts differ without changing meaning
+	Routes         []RouteSpec   `json:"routes"`
+	Delivered      time.Duration `json:"delivered,omitempty"`
+	PublishPolicy  []string      `json:"publish_policy,omitempty"` // raw directive lines
+	Comment        string        `json:"comment,omitempty"`        // makes two texts differ without changing meaning
 }
 
 func q(s string) string { return fmt.Sprintf("%q", s) }
@@ -142,7 +142,9 @@ func onoff(b bool) string {
 	return "off"
 }
 
-func ts(rel int64) string { return Epoch.Add(time.Duration(rel) * time.Second).UTC().Format(time.RFC3339) }
+func ts(rel int64) string {
+	return Epoch.Add(time.Duration(rel) * time.Second).UTC().Format(time.RFC3339)
+}
 
 func (r RetrySpec) render() string {
 	return fmt.Sprintf("retry exponential max %d base %s cap %s jitter %g", r.Max, dur(r.Base), dur(r.Cap), r.Jitter)
